@@ -104,7 +104,7 @@ class Opaque:
     __repr__ = __str__
 
 
-def mk_array(dt: str, shape, pid: int) -> np.ndarray:
+def mk_array(dt: str, shape, pid: int, mix: str = "opaque") -> np.ndarray:
     shape = tuple(shape)
     if dt == "str":
         return np.full(shape, f"s{pid}", dtype=f"<U{len(str(pid)) + 1}")
@@ -112,9 +112,16 @@ def mk_array(dt: str, shape, pid: int) -> np.ndarray:
         a = np.empty(shape, dtype=object)
         a[...] = f"s{pid}"
         return a
-    if dt == "objmixed":
+    if dt == "objmixed":  # an object array that does not hold only str: bytes / str+non-str / arbitrary objects
         a = np.empty(shape, dtype=object)
-        a[...] = Opaque(pid)
+        if mix == "bytes":
+            a[...] = f"s{pid}".encode()
+        else:
+            a[...] = Opaque(pid)
+            if mix == "mixed" and a.size > 1:
+                flat = a.reshape(-1)
+                flat[1:] = f"s{pid}"
+                a = flat.reshape(shape)
         return a
     if dt == "other":
         return np.full(shape, pid, dtype="datetime64[s]")
@@ -126,7 +133,7 @@ def mk_array(dt: str, shape, pid: int) -> np.ndarray:
 def mk_ref(j) -> Any:
     r = j["r"]
     if r == "arr":
-        return mk_array(j["dt"], j["shape"], j["pid"])
+        return mk_array(j["dt"], j["shape"], j["pid"], j.get("mix", "opaque"))
     if r == "list":
         return [mk_ref(x) for x in j["xs"]]
     if r == "none":
@@ -155,9 +162,11 @@ def _pid_of(arr: np.ndarray) -> int:
     x = arr.reshape(-1)[0]
     if isinstance(x, Opaque):
         return x.pid
-    if isinstance(x, (str, np.str_)):
-        s = str(x)
-        return int(s[1:]) if s[:1] == "s" and s[1:].isdigit() else -1
+    if isinstance(x, (str, np.str_, bytes)):
+        import re
+
+        m = re.search(r"s(\d+)", x.decode() if isinstance(x, bytes) else str(x))
+        return int(m.group(1)) if m else -1
     if arr.dtype.kind == "M":
         return int(arr.reshape(-1)[0].astype("int64"))
     if arr.dtype.kind == "c":
@@ -651,6 +660,22 @@ def result_universe() -> list:
         L({"r": "opaque", "pid": 3}), L(A("longlong", [2])), L(A("object", [2]), A("str", [2], 5)),
         L({"r": "ragged"}),
     ]
+    # --- appended (positions above are referred to by index elsewhere): for every element class
+    # right dtype / wrong shape, wrong rank, 0-d vs (1,), empty; object arrays of str / bytes / mixed /
+    # arbitrary objects in right and wrong shapes; the same inside lists (Sequence / Optional payloads)
+    M = lambda shape, mix, pid=3: {"r": "arr", "dt": "objmixed", "shape": list(shape), "pid": pid, "mix": mix}  # noqa: E731
+    out += [
+        A("object", [3]), A("object", [2, 1]), A("object", []), A("object", [1]), A("object", [0], 0),
+        A("object", [1, 2]), A("str", [3]), A("str", [2, 1]), A("str", []), A("str", [1]), A("str", [0], 0),
+        A("bool", [3], 1), A("bool", [], 1), A("bool", [2, 1], 1), A("bool", [1], 1), A("bool", [0], 0),
+        A("i64", [0], 0), A("i64", [1]), A("i64", [1, 2]), A("f32", [3]), A("f32", [0, 3], 0), A("f32", [2, 3, 1], 4),
+        A("u8", [2]), A("i8", [2]),
+        M([2], "bytes"), M([2], "mixed"), M([3], "bytes"), M([3], "mixed"), M([3], "opaque"), M([], "bytes"),
+        {"r": "scalar", "dt": "other", "pid": 3},
+        L(A("object", [3])), L(A("object", [2]), A("object", [3], 5)), L(A("str", [2]), A("object", [2, 1], 5)),
+        L(A("object", [2]), A("object", [2], 5)), L(M([2], "bytes")), L(A("str", [2]), M([2], "mixed", 5)),
+        L(A("str", [3])), L(A("object", [])), L(A("bool", [2], 1), A("bool", [3], 1)), L(L(A("object", [3]))),
+    ]
     return out
 
 
@@ -659,4 +684,7 @@ def declared_universe() -> list:
         T("i64", [2]), T("f32", [None, 3]), T("str", [2]), T("i64", None),
         Seq(T("i64", [2])), Opt(T("i64", [2])), Seq(T("str", None)), Opt(Seq(T("i64", [2]))),
         Seq(Seq(T("i64", [2]))),
+        # appended: string / bool element classes with constant shapes, also inside containers
+        T("bool", [2]), T("str", []), T("str", [None]), T("str", [2, 1]), Seq(T("str", [2])), Opt(T("str", [2])),
+        Seq(T("bool", [2])), T("f32", [2, 3]),
     ]
